@@ -320,6 +320,23 @@ def chunk_containers(chunk, acc):
                             acc.case(("xor", bname, key, prepend, sname, nonce, tuple(keys or ()), ak), outcome=[(g[1], g[2]) for g in got] if isinstance(got, list) else got)
                             if bad:
                                 acc.fail(bad[0] + "/xorencoded", {"kind": "Acont", "container": "xor", "arch": arch, "block": bname, "key": key, "prepend": prepend, "stub": sname, "nonce": nonce.hex(), "keys": keys, "all_keys": ak, "seed": acc.seed}, bad[1], bad[2])
+    # a block in front of the image, at decoded offset 1, 2 or 3 (reads that start inside the first encoded dword)
+    for lead in (1, 2, 3):
+        for key in (0x2E, 0x69, 0x00):
+            for bname in ("minimal", "two"):
+                small = RC.obfuscate(B[bname], key)
+                img = b"\x90" * lead + small + b"\x00" * (8 - len(small) % 4) + refpe.build_pe(arch=arch, data=b"\x33" * 300)
+                for nonce in nonces:
+                    enc = xorenc.encode(img, nonce=nonce, stub=xorenc.CALL_STUB)
+                    views = [(img, True), (enc, False)]
+                    acc.states += 1
+                    for keys, ak in ((None, False), ([key], False)):
+                        got = lib_candidates(enc, keys, ak, 8192)
+                        acc.transitions += 1
+                        bad = judge_a(views, keys, ak, got)
+                        acc.case(("lead", lead, key, bname, nonce, tuple(keys or ())), outcome=[(g[1], g[2]) for g in got] if isinstance(got, list) else got)
+                        if bad:
+                            acc.fail(bad[0] + "/xorencoded/block-at-decoded-offset-1-3", {"kind": "Acont", "container": "xor-lead", "arch": arch, "lead": lead, "key": key, "block": bname, "nonce": nonce.hex(), "keys": keys, "all_keys": ak, "seed": acc.seed}, bad[1], bad[2])
     # a decoy that is only visible in the raw (encoded) view of a XorEncoded stage: the decoded view wins
     blk = RC.obfuscate(B["two"].ljust(4096, b"\x00"), 0x2E)
     img = refpe.build_pe(arch=arch, data=blk)
